@@ -215,6 +215,19 @@ impl<'a> Gen<'a> {
         }
     }
 
+    /// a sum / product whose static type is `!` (over `[]~`): its value is the C01 finding, left open in the reference
+    fn never_op(op: &'static str, t: &Ty) -> &'static str {
+        if *t != Ty::Never {
+            op
+        } else if op.starts_with("$+") {
+            "$+n"
+        } else if op.starts_with("$*") {
+            "$*n"
+        } else {
+            op
+        }
+    }
+
     fn maybe_tick(&mut self, e: E, t: &Ty) -> E {
         if let Some(k) = scalar_kind(t) {
             if self.pct(self.p.tick) {
@@ -416,10 +429,17 @@ impl<'a> Gen<'a> {
             }
             9 => {
                 // reduce an int iterator
-                let (it, _) = self.iter_expr(&Ty::Int, d);
+                let (it, et) = self.iter_expr(&Ty::Int, d);
                 let op = *self.rng.pick(&["$+i", "$*i", "$&", "$|", "$+i"]);
                 self.tag(&format!("reduce:{op}"));
-                (E::Post(op, Box::new(it)), Ty::Int)
+                // `$+` / `$*` are typed by the element type (`!` over `[]~`); `$&` / `$|` are calls returning int
+                let t = if op.starts_with("$+") || op.starts_with("$*") { et } else { Ty::Int };
+                if t == Ty::Never && !self.pct(25) {
+                    // the value of a `!`-typed sum is left open in the reference: keep those rare
+                    return (E::Int(self.small_int()), Ty::Int);
+                }
+                let op = Self::never_op(op, &t);
+                (E::Post(op, Box::new(it)), t)
             }
             10 => {
                 // immediately applied lambda
@@ -485,7 +505,17 @@ impl<'a> Gen<'a> {
             return (lit(self), Ty::Float);
         }
         let d = depth - 1;
-        match self.rng.below(5) {
+        match self.rng.below(if self.p.iterators > 0 { 6 } else { 5 }) {
+            5 => {
+                // sum / product of a float iterator
+                let (it, et) = self.iter_expr(&Ty::Float, d);
+                let op = *self.rng.pick(&["$+f", "$*f"]);
+                self.tag(&format!("reduce:{op}"));
+                if et == Ty::Never {
+                    return (lit(self), Ty::Float);
+                }
+                (E::Post(op, Box::new(it)), et)
+            }
             0 | 1 => (lit(self), Ty::Float),
             2 | 3 => {
                 let op = *self.rng.pick(&["+", "-", "*", "/", "**"]);
@@ -507,7 +537,16 @@ impl<'a> Gen<'a> {
             return (lit(self), Ty::Str);
         }
         let d = depth - 1;
-        match self.rng.below(7) {
+        match self.rng.below(if self.p.iterators > 0 { 8 } else { 7 }) {
+            7 => {
+                // concatenation of a string iterator
+                let (it, et) = self.iter_expr(&Ty::Str, d);
+                self.tag("reduce:$+s");
+                if et == Ty::Never {
+                    return (lit(self), Ty::Str);
+                }
+                (E::Post("$+s", Box::new(it)), et)
+            }
             0 | 1 => (lit(self), Ty::Str),
             2 | 3 => {
                 let (a, _) = self.expr(&Ty::Str, d);
